@@ -88,6 +88,7 @@ func c20Conn(t *Tape, sc *Scenario, idx int, pat int) (ConnScript, ConnBackendPl
 	cs.defaults()
 	cs.AwaitTO = 2 * time.Second
 	cs.IdleEnd = 2 * time.Second
+	cp.LogoutErr = t.Chance(1, 4)
 	return cs, cp
 }
 
